@@ -358,7 +358,22 @@ fn c12(ctx: &Ctx, rep: &mut Report) {
             .collect();
         extras.push(s);
     }
+    // characters whose lower / upper case form has a different UTF-8 length (a byte index computed on a case-mapped
+    // copy does not fit the original), around the separators and scheme punctuation that the resolvers cut at
+    let case_alpha = ["/", ":", "\u{130}", "\u{23a}", "\u{212a}", "\u{1e9e}", "ß", "\u{fb01}", "a", "F"];
+    let mut cased: Vec<String> = vec![];
+    for_all_strings(&case_alpha, if ctx.thorough { 5 } else { 4 }, |_, s| cased.push(s.to_string()));
     let mut idx = 0u64;
+    for s in &cased {
+        idx += 1;
+        if !ctx.mine(idx) {
+            continue;
+        }
+        let cls = format!("casemap:{}", sclass(s));
+        run_ops(0, &ops_one(s), &cls, rep);
+        helpers_one(s, rep);
+    }
+    rep.count("case_mapping_strings", cased.len() as u64 / ctx.shards.max(1) as u64);
     for s in singles.iter().chain(extras.iter()) {
         idx += 1;
         if !ctx.mine(idx) {
